@@ -30,7 +30,7 @@ def gates(tier):
         "min_decided": {"(cfg @ fst)(ys)": 1500 * k, "(fst @ cfg)(xs)": 800 * k, "(cfg @ xs).treesum()": 800 * k,
                         "cfg.truncate_length(n)(xs)": 800 * k, "(cfg @ acceptor)(xs)": 800 * k},
         "shapes": {c: 3 * k for c in ["eps_rule", "recursive", "eps_in", "eps_out", "eps:eps", "fst_cyclic", "fst_multi_initial",
-                                      "fst_multi_final", "sr:Q", "sr:Boolean", "sr:Real", "sr:MaxTimes", "nullable_start", "constructor-freshness"]},
+                                      "fst_multi_final", "sr:Q", "sr:Boolean", "sr:Real", "sr:MaxTimes", "nullable_start", "constructor-freshness", "truncate-on-composed"]},
         "min_hashseeds": 2,
     }
 
@@ -125,6 +125,23 @@ def run_case(case, ctx):
                                   {"ys": list(ys), "weight_under_composed_rules": lib.want_value(R, v2), "want": lib.want_value(R, w)})
                     except (cfgref.NotApplicable, cfgref.Singular, cfgref.NoConverge):
                         ctx.skip(APIS[0], "oracle-not-applicable:composed")
+        # --- operations applied to the composed grammar itself: its vocabulary must be the transducer's output symbols
+        if ok:
+            for nmax in (0, 2):
+                okT, CT = ctx.call(APIS[3], dict(case, n=nmax, on="composed"), C.truncate_length, nmax)
+                if not okT:
+                    continue
+                ctx.shape["truncate-on-composed"] += 1
+                for ys in YS:
+                    D = fstref.slice_out(rt, ys, zero, one, idem)
+                    w = fstref.intersect_total(O, D) if len(ys) <= nmax else O.zero
+                    c2 = dict(case, n=nmax, ys=list(ys), on="composed")
+                    okv, v = ctx.call(APIS[3], c2, CT, ys)
+                    if okv:
+                        good = same(v, w) if len(ys) <= nmax else lib.is_zero_value(R, v)
+                        ctx.check(APIS[3], good, "truncate_length(composed)/value", c2, {"ys": list(ys), "n": nmax, "have": v, "want": lib.want_value(R, w)})
+            bad_sym = [x for x in C.V if x == ""]
+            ctx.check(APIS[0], not bad_sym, "cfg@fst/epsilon-in-vocabulary", case, {"V": [repr(x) for x in C.V]})
         # --- fst @ cfg  (maps the other way: strings over the transducer's input alphabet)
         ok, C2 = ctx.call(APIS[1], case, lambda: F.T @ cfg)
         if ok:
